@@ -377,6 +377,10 @@ def dpss(N, NW=None, k=None):
     r = 4 * W * np.sinc(2 * W * nidx)
     r[0] = 2 * W
     eigvals = np.dot(acvs, r)
+    # a concentration ratio is a fraction of the taper energy: remove the
+    # rounding excess above 1 (large NW), which puts a pole in the adaptive
+    # multitaper weights
+    eigvals = np.minimum(eigvals, 1.0)
 
     # return (tapers, lam)
     return [tapers, eigvals]
